@@ -22,7 +22,10 @@ LEVEL = ("error discipline and accounting over all paths: no value whose static 
          "response gets a status branch in the template; every operation is attached to a provably non-empty list of collections; the "
          "error lists are concatenated up to the CLI and the collections that carry the per-operation diagnostics are handed on entire "
          "(accumulator -> result of from_data -> GeneratorData, no filtered copy, no removal); the method list equals the Operation "
-         "fields of PathItem.")
+         "fields of PathItem; one iteration over enumerated items reads its own item only, never another entry of the collection it "
+         "goes through; the mapping handed to GeneratorData.from_dict is, entire, what the loading call returned.  Comprehensions over "
+         "document items are read as the loops they abbreviate (a per-item local function / private helper as the loop body); a "
+         "generator's `yield` hands a value on like `return`.")
 
 # wrappers that hand the elements of their argument(s) on unchanged
 _ELEMENTWISE = {"enumerate", "sorted", "list", "tuple", "reversed", "chain", "itertools.chain", "iter"}
@@ -50,6 +53,13 @@ def run(rep: Report, ctx: Any) -> str:
                       "its accumulator, what GeneratorData is given is what from_data returned - never a filtered copy, never with "
                       "entries removed")
     rep.rule("R07.6", "every operation is attached to a provably non-empty list of collections; the method list is exhaustive")
+    rep.rule("R07.9", "one iteration accounts for its own item: inside a loop over a collection of items the property enumerates, the "
+                      "body never takes ANOTHER entry of that collection (subscript / get / pop with a key other than the loop's own) "
+                      "as a value, and never re-binds the variable holding the item from something computed from the collection - the "
+                      "other entry has an iteration of its own, and what is written in this one would be visited by nobody")
+    rep.rule("R07.10", "the document that is parsed is the document that was loaded: what GeneratorData.from_dict is handed is, entire, "
+                       "what the loading call returned (any local name, a whole copy) - no call in between that takes the loaded mapping "
+                       "and returns another, no filtered copy, no removal; from_dict does not re-bind or prune its document parameter")
 
     # ---- R07.1 -------------------------------------------------------------------------------------------------------
     returns_err = set()
@@ -126,6 +136,24 @@ def run(rep: Report, ctx: Any) -> str:
     rep.require(set(ENUMERATED) <= kinds_seen, f"a loop over each kind of item the property enumerates {ENUMERATED}; found {sorted(kinds_seen)}")
     rep.observe("Endpoint.add_parameters: a parameter without `schema` (e.g. with `content`) is skipped without a diagnostic")
 
+    # ---- R07.9 -----------------------------------------------------------------------------------------------------------
+    n_own = 0
+    for f, loops in sorted(document_loops(ix).items(), key=lambda kv: kv[0].qual):
+        T = _DocTypes(ix, f)
+        for lp, kind_of_item in loops.items():
+            if kind_of_item not in ENUMERATED:
+                continue
+            colls = _iterated_collections(lp, T)
+            if not colls:
+                continue
+            n_own += 1
+            foreign = _foreign_entries(f.node, lp, colls)
+            rep.check(not foreign, "R07.9", f"{short(f)}::own-item [for _ in {role_anon(lp.iter, f.node)[:60]}]",
+                      f"the iteration over {kind_of_item} takes another entry of the collection it goes through in place of (or next to) "
+                      "its own item: what the document says in this entry is then visited by no iteration and named by no diagnostic",
+                      where(f, foreign[0] if foreign else lp), lhs=[norm(x)[:70] for x in foreign], rhs="only the loop's own item (its own key) is read from the collection")
+    rep.floor("own_item_loops", n_own, 3)
+
     # ---- R07.3 ---------------------------------------------------------------------------------------------------------------
     fd = ix.func("EndpointCollection.from_data")
     bad_hdrs, n_hdrs = _unlabelled_endpoint_errors(ix, fd, cfgs)
@@ -133,13 +161,22 @@ def run(rep: Report, ctx: Any) -> str:
               "EndpointCollection.from_data::error-headers", "endpoint diagnostics do not name METHOD and path on both routes", where(fd, fd.node),
               lhs=bad_hdrs or n_hdrs, rhs="every error attached to a collection got a header computed from the method and the path before")
     us = ix.func("schemas.update_schemas_with_data")
-    rep.check(any(isinstance(n, ast.Assign) and norm(n.targets[0]).endswith(".header") and "ref_path" in names_in(n.value) for n in ast.walk(us.node)),
-              "R07.3", "update_schemas_with_data::error-names-reference", "schema errors do not carry the reference path", where(us, us.node))
+    # the reference is what the function is handed as such: the parameter(s) declared ReferencePath
+    refs = {x.arg for x in us.params if x.annotation is not None and "ReferencePath" in norm(x.annotation)} or {"ref_path"} & {x.arg for x in us.params}
+    rep.require(refs, "the reference path parameter of update_schemas_with_data")
+    bad_us, n_us = _unlabelled_errors(ix, us, [refs], cfgs, returned=True)
+    rep.require(n_us >= 1, "an error return of update_schemas_with_data")
+    rep.check(not bad_us, "R07.3", "update_schemas_with_data::error-names-reference", "schema errors do not carry the reference path", where(us, us.node),
+              lhs=bad_us or n_us, rhs="every error the function returns had its header computed from the reference path before (in place or "
+                                      "by a private helper that is handed the error and the reference)")
     pm = ix.func("properties._process_models")
-    mvars = {norm(lp.target) for lp in ast.walk(pm.node) if isinstance(lp, ast.For) and any(call_name(c) == "process_model" for c in ast.walk(lp) if isinstance(c, ast.Call))}
-    rep.check(any(isinstance(n, ast.Assign) and norm(n.targets[0]).endswith(".header") and any(f"{m}.name" in norm(n.value) for m in mvars)
-                  for n in ast.walk(pm.node)), "R07.3", "_process_models::error-names-schema",
-              "model processing errors do not name the schema", where(pm, pm.node))
+    # the schema is the item the pass goes through: the variable(s) of its loops over the work list of models
+    mvars = {x for lp, kind in document_loops(ix).get(pm, {}).items() if kind == SCHEMAS for x in _targets(lp.target)}
+    rep.require(mvars, "the loop of _process_models over the models that await processing")
+    bad_pm, n_pm = _unlabelled_errors(ix, pm, [mvars], cfgs, returned=False)
+    rep.require(n_pm >= 1, "an error recorded by _process_models")
+    rep.check(not bad_pm, "R07.3", "_process_models::error-names-schema", "model processing errors do not name the schema", where(pm, pm.node),
+              lhs=bad_pm or n_pm, rhs="every error the pass records had its header computed from the model it is about")
 
     # ---- R07.4 -------------------------------------------------------------------------------------------------------------------
     check_registries(rep, ctx, "R07.4")
@@ -254,15 +291,39 @@ def run(rep: Report, ctx: Any) -> str:
     rep.check(n_ret >= 1 and not acc_ok, "R07.5", "EndpointCollection.from_data::returns-all-collections",
               "what from_data returns as its collections is not the accumulator it filled, entire", where(fd, fd.node), lhs=acc_ok or n_ret,
               rhs="the local that starts as an empty dict, or a copy with every entry of it")
+    # ---- R07.10 (the other end of the chain: what is parsed is what was loaded) ----------------------------------------------------
+    doc_param = next((x.arg for x in gd.params if x.arg not in ("self", "cls")), None)
+    rep.require(doc_param, "the document parameter of GeneratorData.from_dict")
+    sites = [(h, c) for h in ix.all_functions if h.module.name.startswith(PKG) and h is not gd for c in _own_walk(h.node)
+             if isinstance(c, ast.Call) and call_name(c).rsplit(".", 2)[-2:] == ["GeneratorData", "from_dict"]]
+    rep.require(sites, "a call of GeneratorData.from_dict in the package")
+    for h, c in sites:
+        handed = _bind_call(gd, c).get(doc_param)
+        why = _document_entire(ix, h, handed) if handed is not None else "no document handed over"
+        rep.check(why is None, "R07.10", f"{short(h)}::document-entire", "the mapping handed to GeneratorData.from_dict is not, entire, the "
+                  "document that was loaded: whatever the step in between leaves out is in the document, in no artefact and in no diagnostic",
+                  where(h, c), lhs=why, rhs="the result of the loading call itself, or a whole copy of it")
+    why_in = _pruned(gd.node, doc_param)
+    rep.check(why_in is None, "R07.10", "GeneratorData.from_dict::document-untouched", "from_dict re-binds or prunes the document it was handed "
+              "before validating it", where(gd, gd.node), lhs=why_in, rhs=f"`{doc_param}` is read, never re-bound, nothing removed from it")
+
     b = ix.func("Project.build")
     rets = [n for n in ast.walk(b.node) if isinstance(n, ast.Return)]
     rep.check(any(norm(_inline_locals(r.value, b.node)) == "self._get_errors()" for r in rets if r.value is not None), "R07.5", "Project.build::returns-errors",
               "build() does not return the aggregated errors", where(b, b.node))
     g = ix.func(f"{PKG}.generate")
-    projs = set(Locals(g.node).bound_from(lambda v: v.startswith("_get_project_for_url_or_path("), "assign"))
-    rep.check(any(isinstance(n, ast.Return) and n.value is not None and any(norm(_inline_locals(n.value, g.node, keep=projs)) == f"{p_}.build()" for p_ in projs)
-                  for n in ast.walk(g.node)),
-              "R07.5", "generate::returns-build", "generate() does not return what build() returns", where(g, g.node))
+    # everything generate() can return (its own returns and those of the private helpers whose result it returns) is either what
+    # build() returned on a Project - however the project was obtained - or nothing but errors; and the former occurs
+    n_build, other = 0, []
+    for h, r, raw in _return_leaves(ix, g):
+        v = _strip_views(_inline_locals(raw, h.node)) if raw is not None else None
+        if isinstance(v, ast.Call) and isinstance(v.func, ast.Attribute) and v.func.attr == "build" and \
+                "Project" in receiver_classes(ix, h, v.func.value, depth=4):
+            n_build += 1
+        elif v is None or not (_only_errors(raw, error_names(h.node)) or _only_errors(v, error_names(h.node))):
+            other.append(f"{norm(r)[:60]} @ line {r.lineno}")
+    rep.check(n_build >= 1 and not other, "R07.5", "generate::returns-build", "generate() does not return what build() returns",
+              where(g, g.node), lhs=other or n_build, rhs="every return hands on the result of <Project>.build(), or errors only")
 
     # ---- R07.6 -----------------------------------------------------------------------------------------------------------------------
     # the tag list (any spelling): the local handed to Endpoint.from_data as tags=
@@ -326,6 +387,34 @@ def run(rep: Report, ctx: Any) -> str:
               f"the method list {meth} differs from the Operation fields of PathItem {ops}", where(fd, fd.node), lhs=meth, rhs=ops)
     rep.not_decided.append("the census itself; response media types other than the first supported one are ignored by design")
     return LEVEL
+
+
+# ---- what a function returns, through the private helpers whose result it returns ----------------------------------------------------
+def _return_leaves(ix: Any, f: Any, depth: int = 2, _seen: "set[str] | None" = None) -> list[tuple[Any, ast.Return, "ast.AST | None"]]:
+    """(function, return statement, value) for everything f can return: its own returns; a return of the result of a private helper
+    of f (astutil.region, possibly through a once-bound local) stands for the helper's returns"""
+    seen = _seen if _seen is not None else {f.qual}
+    helpers = {g.name: g for g in region(ix, f, depth=1) if g is not f} if depth > 0 else {}
+    out: list[tuple[Any, ast.Return, ast.AST | None]] = []
+    for r in _own_walk(f.node):
+        if not isinstance(r, ast.Return):
+            continue
+        v = _inline_locals(r.value, f.node) if r.value is not None else None
+        g = helpers.get(call_name(v).rsplit(".", 1)[-1]) if isinstance(v, ast.Call) else None
+        if g is not None and g.qual not in seen and not any(isinstance(y, (ast.Yield, ast.YieldFrom)) for y in _own_walk(g.node)):
+            out += _return_leaves(ix, g, depth - 1, seen | {g.qual})
+        else:
+            out.append((f, r, r.value))
+    return out
+
+
+def _only_errors(v: ast.AST, errs: set[str]) -> bool:
+    """v is an error or a display of errors: built in place or held by a local known to hold one"""
+    if isinstance(v, (ast.List, ast.Tuple, ast.Set)):
+        return bool(v.elts) and all(_only_errors(x.value if isinstance(x, ast.Starred) else x, errs) for x in v.elts)
+    if isinstance(v, ast.Name):
+        return v.id in errs
+    return isinstance(v, ast.Call) and constructs_error(v)
 
 
 # ---- what a function returns as a list: the collections all of whose elements end up in it ---------------------------------------------
@@ -521,6 +610,117 @@ def _all_entries(fn: ast.AST, e: ast.AST, is_source: Any, busy: frozenset = froz
     return f"`{norm(e)[:50]}`"
 
 
+def _pruned(fn: ast.AST, name: str) -> "str | None":
+    """why the mapping held by parameter `name` is not what fn was handed any more: re-bound, or entries removed"""
+    for st in _own_walk(fn):
+        if isinstance(st, ast.Name) and st.id == name and isinstance(st.ctx, (ast.Store, ast.Del)):
+            return f"`{name}` is re-bound (line {st.lineno})"
+        if isinstance(st, ast.Delete) and any(isinstance(t, ast.Subscript) and names_in(t.value) & {name} for t in st.targets):
+            return f"entries are deleted from it (line {st.lineno})"
+        if isinstance(st, ast.Call) and isinstance(st.func, ast.Attribute) and st.func.attr in ("pop", "popitem", "clear") and \
+                names_in(st.func.value) & {name}:
+            return f"entries are removed from it (line {st.lineno})"
+    return None
+
+
+def _returns_mapping(ix: Any, call: ast.Call) -> bool:
+    """the function called is one of the repository's and is declared to return a mapping (possibly or an error)"""
+    last = call_name(call).rsplit(".", 1)[-1]
+    for g in ix.all_functions:
+        if g.name == last and g.node.returns is not None:
+            ann = norm(g.node.returns)
+            if any(w in ann for w in ("dict", "Dict", "Mapping")):
+                return True
+    return False
+
+
+def _takes_document(ix: Any, h: Any, call: ast.Call) -> "str | None":
+    """the argument of `call` that already is the loaded document - a local of h bound to the result of a function declared to return
+    a mapping, such a call written in place, or a parameter of h declared a mapping: the call then stands between loading and parsing"""
+    lc = Locals(h.node)
+    for a in [*call.args, *[k.value for k in call.keywords]]:
+        if isinstance(a, ast.Starred):
+            a = a.value
+        if isinstance(a, ast.Call) and (_returns_mapping(ix, a) or _takes_document(ix, h, a)):
+            return norm(a)[:40]
+        if isinstance(a, ast.Name):
+            if any(k.startswith("assign") and isinstance(v, ast.Call) and (_returns_mapping(ix, v) or (v is not call and _takes_document(ix, h, v)))
+                   for k, _, v in lc.defs.get(a.id, [])):
+                return a.id
+            ann = next((x.annotation for x in h.params if x.arg == a.id), None)
+            if ann is not None and any(w in norm(ann) for w in ("dict", "Dict", "Mapping")):
+                return a.id
+    return None
+
+
+def _document_entire(ix: Any, h: Any, e: ast.AST) -> "str | None":
+    """None when the mapping e that h hands to the parser is, entire, what a loading call returned; otherwise the reason.  A loading
+    call is any call that is not itself handed the loaded document (see _takes_document): it makes the document, it cannot prune it."""
+    def loads(v: "ast.AST | None") -> bool:
+        return isinstance(v, ast.Call) and not (call_name(v) in _WHOLE and len(v.args) == 1) and \
+            not (isinstance(v.func, ast.Attribute) and v.func.attr in ("copy", "items") and not v.args) and _takes_document(ix, h, v) is None
+
+    if loads(e):
+        return None
+    if isinstance(e, ast.Call) and _takes_document(ix, h, e) is not None and not (call_name(e) in _WHOLE or (isinstance(e.func, ast.Attribute) and e.func.attr == "copy")):
+        return f"`{norm(e)[:60]}` takes the loaded document `{_takes_document(ix, h, e)}` and returns another mapping"
+    if isinstance(e, ast.Name) and e.id in {x.arg for x in h.params} and e.id not in Locals(h.node).defs:
+        return _pruned(h.node, e.id)  # handed in by the caller of h, passed on as it is
+    return _all_entries(h.node, e, lambda st, v: loads(v))
+
+
+# ---- one iteration, one item -----------------------------------------------------------------------------------------------------------
+def _iterated_collections(lp: ast.For, T: "_DocTypes") -> list[tuple[str, set[str]]]:
+    """(text of the collection the loop goes through, the loop's own key variables) - the collection behind views, element-wise
+    wrappers and the locals it was bound to.  The own key is the first variable of `for k, v in C.items()`, the variable of
+    `for k in C` / `for k in C.keys()`."""
+    keys: set[str] = set()
+    it = lp.iter
+    while isinstance(it, ast.Call) and call_name(it) in _ELEMENTWISE - {"enumerate"} and len(it.args) == 1:
+        it = it.args[0]
+    if isinstance(lp.target, ast.Tuple) and len(lp.target.elts) == 2 and isinstance(it, ast.Call) and isinstance(it.func, ast.Attribute) and it.func.attr == "items":
+        keys = _targets(lp.target.elts[0])
+    elif isinstance(lp.target, ast.Name) and not (isinstance(it, ast.Call) and isinstance(it.func, ast.Attribute) and it.func.attr in ("values", "items")):
+        keys = {lp.target.id}
+    out = []
+    for src, _ in T.sources(lp.iter):
+        if isinstance(src, (ast.Name, ast.Attribute)) and dotted_name(src):
+            out.append((dotted_name(src), keys))
+    return out
+
+
+def _foreign_entries(fn: ast.AST, lp: ast.For, colls: list[tuple[str, set[str]]]) -> list[ast.AST]:
+    """expressions in the body of lp that take another entry of the iterated collection as a value, and re-bindings of the item
+    variable from something computed from the collection.  Tests (`if K in C`, `if C.get(K) is None`) decide something about this
+    item and take nothing in its place."""
+    names = {c for c, _ in colls}
+    item_vars = {x for t in _targets(lp.target) for x in _same_object(fn, t)}
+
+    def is_coll(e: ast.AST) -> bool:
+        return isinstance(e, (ast.Name, ast.Attribute)) and dotted_name(e) in names
+
+    def own(k: ast.AST, e: ast.AST) -> bool:
+        return isinstance(k, ast.Name) and any(k.id in keys for c, keys in colls if c == dotted_name(e))
+
+    out: list[ast.AST] = []
+    tests = {id(x) for s_ in lp.body for n in _own_walk(s_) if isinstance(n, (ast.If, ast.While, ast.Assert, ast.IfExp)) for x in ast.walk(n.test)}
+    for s_ in lp.body:
+        for n in _own_walk(s_):
+            if id(n) in tests:
+                continue
+            if isinstance(n, ast.Subscript) and isinstance(n.ctx, ast.Load) and is_coll(n.value) and not own(n.slice, n.value):
+                out.append(n)
+            if isinstance(n, ast.Call) and isinstance(n.func, ast.Attribute) and n.func.attr in ("get", "pop") and n.args and is_coll(n.func.value) \
+                    and not own(n.args[0], n.func.value):
+                out.append(n)
+            if isinstance(n, (ast.Assign, ast.AnnAssign, ast.NamedExpr)) and n.value is not None:
+                tgts = n.targets if isinstance(n, ast.Assign) else [n.target]
+                if any(isinstance(t, ast.Name) and t.id in item_vars for t in tgts) and any(is_coll(x) for x in ast.walk(n.value)) and \
+                        not any(n.value is o or any(x is o for x in ast.walk(n.value)) for o in out):
+                    out.append(n)
+    return out
+
+
 # ---- endpoint diagnostics carry METHOD and path ------------------------------------------------------------------------------------
 def _text_sources(e: ast.AST | None, fn: ast.AST, depth: int = 4, _seen: "set[str] | None" = None) -> set[str]:
     """the names whose text goes into the string e: through f-strings, + and %, conditional expressions, string methods
@@ -560,6 +760,92 @@ def _text_sources(e: ast.AST | None, fn: ast.AST, depth: int = 4, _seen: "set[st
     return set()
 
 
+def _writes_label(fn: ast.AST, helpers: dict[str, Any], n: object, who: str, need: list[set[str]], attrs: tuple[str, ...] = ("header",)) -> bool:
+    """statement n of fn writes into a text attribute of the error held by local `who` a string computed from (a name of each set
+    of) `need`: in place, or by calling a private helper that is handed the error and writes, into the text of the parameter that
+    receives it, a string computed from parameters that receive such names"""
+    if isinstance(n, (ast.Assign, ast.AugAssign)):
+        tgts = n.targets if isinstance(n, ast.Assign) else [n.target]
+        if any(isinstance(t, ast.Attribute) and t.attr in attrs and isinstance(t.value, ast.Name) and t.value.id == who for t in tgts):
+            behind = _text_sources(n.value, fn)
+            if all(behind & grp for grp in need):
+                return True
+    if isinstance(n, ast.stmt):
+        for c in walk_own(n):
+            g = helpers.get(call_name(c).rsplit(".", 1)[-1]) if isinstance(c, ast.Call) else None
+            if g is None:
+                continue
+            env = _bind_call(g, c)
+            mine = {p_ for p_, a in env.items() if isinstance(a, ast.Name) and a.id == who}
+            for m in ast.walk(g.node):
+                if isinstance(m, (ast.Assign, ast.AugAssign)) and any(
+                        isinstance(t, ast.Attribute) and t.attr in attrs and isinstance(t.value, ast.Name) and t.value.id in mine
+                        for t in (m.targets if isinstance(m, ast.Assign) else [m.target])):
+                    used = _text_sources(m.value, g.node) & set(env)
+                    behind = {x for p_ in used for x in _text_sources(env[p_], fn)}
+                    if all(behind & grp for grp in need):
+                        return True
+    return False
+
+
+def _same_object(fn: ast.AST, name: str) -> set[str]:
+    """the locals of fn that are names for the object `name` holds: connected to it by plain `a = b` bindings (either direction)"""
+    pairs = [(n, v.id) for n, ds in Locals(fn).defs.items() for k, _, v in ds if k == "assign" and isinstance(v, ast.Name)]
+    out = {name}
+    changed = True
+    while changed:
+        changed = False
+        for a, b in pairs:
+            if (a in out) != (b in out):
+                out |= {a, b}
+                changed = True
+    return out
+
+
+def _unlabelled_errors(ix: Any, f: Any, need: list[set[str]], cfgs: dict[str, CFG], returned: bool) -> tuple[list[str], int]:
+    """(errors that leave f without a header computed from `need`, number of errors that leave f).  An error leaves f by being
+    returned (`returned`) or by being recorded in a list (alone or in a tuple).  Held by a local, it must have been labelled
+    (_writes_label) on every path to that point - or by the very statement, when a helper labels it and hands it back; built in
+    place, its header / detail arguments must be computed from `need`."""
+    cfg = cfg_of(f, cfgs)
+    errs = {x for e in error_names(f.node) for x in _same_object(f.node, e)}
+    helpers = {g.name: g for g in region(ix, f, depth=1) if g is not f}
+    bad: list[str] = []
+    n = 0
+
+    def labels(x: object, who: str) -> bool:
+        return any(_writes_label(f.node, helpers, x, w, need) for w in _same_object(f.node, who))
+
+    for st in cfg.stmts():
+        leaving: list[ast.AST] = []
+        if returned and isinstance(st, ast.Return) and st.value is not None:
+            for v in ([st.value] + (list(st.value.elts) if isinstance(st.value, ast.Tuple) else [])):
+                if isinstance(v, ast.Name) and v.id in errs:
+                    leaving.append(v)
+                elif isinstance(v, ast.Call) and (constructs_error(v) or (
+                        call_name(v).rsplit(".", 1)[-1] in helpers and any(isinstance(a, ast.Name) and a.id in errs for a in [*v.args, *[k.value for k in v.keywords]]))):
+                    leaving.append(v)
+        if not returned:
+            for c in walk_own(st):
+                if isinstance(c, ast.Call) and isinstance(c.func, ast.Attribute) and c.func.attr in ("append", "extend") and c.args:
+                    a0 = c.args[0]
+                    for v in ([a0] + (list(a0.elts) if isinstance(a0, (ast.Tuple, ast.List)) else [])):
+                        if (isinstance(v, ast.Name) and v.id in errs) or (isinstance(v, ast.Call) and constructs_error(v)):
+                            leaving.append(v)
+        for v in leaving:
+            n += 1
+            if isinstance(v, ast.Name):
+                ok = labels(st, v.id) or cfg.is_dominated_by(st, lambda x, who=v.id: labels(x, who))
+            elif call_name(v).rsplit(".", 1)[-1] in helpers:
+                ok = any(labels(st, a.id) for a in [*v.args, *[k.value for k in v.keywords]] if isinstance(a, ast.Name) and a.id in errs)
+            else:
+                behind = {x for k in v.keywords if k.arg in ("header", "detail") for x in _text_sources(k.value, f.node)}
+                ok = all(behind & grp for grp in need)
+            if not ok:
+                bad.append(f"{norm(st)[:60]} @ line {getattr(st, 'lineno', 0)}")
+    return bad, n
+
+
 def _unlabelled_endpoint_errors(ix: Any, fd: Any, cfgs: dict[str, CFG]) -> tuple[list[str], int]:
     """(errors attached to a collection's parse_errors whose header was not computed from the method and the path, number of attachments).
     Method and path are found by role: the path is the key the loop over the path items yields, the method is the loop variable that
@@ -589,24 +875,7 @@ def _unlabelled_endpoint_errors(ix: Any, fd: Any, cfgs: dict[str, CFG]) -> tuple
 
     def sets_header(n: object, who: str) -> bool:
         """statement n gives the error held by local `who` its header, computed from method and path"""
-        if isinstance(n, ast.Assign) and any(isinstance(t, ast.Attribute) and t.attr == "header" and isinstance(t.value, ast.Name) and t.value.id == who
-                                              for t in n.targets):
-            return labelled(n.value)
-        if isinstance(n, ast.stmt):
-            for c in walk_own(n):
-                g = helpers.get(call_name(c).rsplit(".", 1)[-1]) if isinstance(c, ast.Call) else None
-                if g is None:
-                    continue
-                env = _bind_call(g, c)
-                mine = {p_ for p_, a in env.items() if isinstance(a, ast.Name) and a.id == who}
-                for m in ast.walk(g.node):
-                    if isinstance(m, ast.Assign) and any(isinstance(t, ast.Attribute) and t.attr == "header" and isinstance(t.value, ast.Name) and
-                                                         t.value.id in mine for t in m.targets):
-                        used = _text_sources(m.value, g.node) & set(env)
-                        behind = {x for p_ in used for x in _text_sources(env[p_], fd.node)}
-                        if behind & path_names and behind & method_names:
-                            return True
-        return False
+        return _writes_label(fd.node, helpers, n, who, [path_names, method_names])
 
     bad: list[str] = []
     n = 0
@@ -855,6 +1124,168 @@ def _classify(lp: ast.For, T: _DocTypes, accumulators: dict[str, dict[int | None
     return None
 
 
+# ---- comprehensions are loops ---------------------------------------------------------------------------------------------------------
+_COMPS = (ast.ListComp, ast.SetComp, ast.GeneratorExp, ast.DictComp)
+_ACC = "<collected>"  # the name of the result of a comprehension that is not bound to a local of its own (cannot clash: not an identifier)
+
+
+def _blocks(fn: ast.AST) -> Any:
+    """every statement list of fn (nested function definitions excluded)"""
+    for n in _own_walk(fn):
+        for fld in ("body", "orelse", "finalbody"):
+            b = getattr(n, fld, None)
+            if isinstance(b, list) and b and isinstance(b[0], ast.stmt):
+                yield b
+        for h in getattr(n, "handlers", []) or []:
+            yield h.body
+        for c in getattr(n, "cases", []) or []:
+            yield c.body
+
+
+def _inlinable(g: ast.AST) -> bool:
+    """the body of g can stand where g is called once per item: it is not a generator, does not call itself, and never returns
+    from inside a loop of its own (a `return` becomes "this is the item's outcome; next item")"""
+    if not isinstance(g, (ast.FunctionDef,)) or g.args.vararg or g.args.kwarg:
+        return False
+    for n in _own_walk(g):
+        if isinstance(n, (ast.Yield, ast.YieldFrom, ast.Await)):
+            return False
+        if isinstance(n, ast.Call) and call_name(n).rsplit(".", 1)[-1] == g.name:
+            return False
+        if isinstance(n, (ast.For, ast.While, ast.AsyncFor)) and any(isinstance(r, ast.Return) for s_ in n.body + n.orelse for r in _own_walk(s_)):
+            return False
+    return True
+
+
+def _as_loop(comp: ast.AST, acc: str, callee: "tuple[Any, dict[str, ast.AST]] | None") -> ast.For:
+    """`[E for T in IT if C]` as the loop it abbreviates: `for T in IT: if not C: continue; acc.append(E)`.  When E is the result
+    of a local function / private helper called once per item (callee = its definition and the binding of its parameters), the body
+    of that function stands for the call: its parameters are bound, each `return X` reads `acc.append(X); continue`."""
+    import copy
+
+    def at(n: ast.AST) -> ast.AST:
+        return ast.fix_missing_locations(ast.copy_location(n, comp))
+
+    def collect(v: "ast.AST | None", like: ast.AST) -> ast.stmt:
+        call = ast.Call(func=ast.Attribute(value=ast.Name(id=acc, ctx=ast.Load()), attr="append", ctx=ast.Load()),
+                        args=[v if v is not None else ast.Constant(value=None)], keywords=[])
+        return ast.fix_missing_locations(ast.copy_location(ast.Expr(value=call), like))
+
+    elt = ast.Tuple(elts=[comp.key, comp.value], ctx=ast.Load()) if isinstance(comp, ast.DictComp) else comp.elt
+    if callee is None:
+        body: list[ast.stmt] = [collect(copy.deepcopy(elt), comp)]
+    else:
+        g, env = callee
+        body = []
+        a = g.args
+        params = [*a.posonlyargs, *a.args, *a.kwonlyargs]
+        defaults = dict(zip([x.arg for x in [*a.posonlyargs, *a.args]][::-1], a.defaults[::-1]))
+        defaults.update({x.arg: d for x, d in zip(a.kwonlyargs, a.kw_defaults) if d is not None})
+        for x in params:
+            v = env.get(x.arg, defaults.get(x.arg))
+            if v is not None and not (isinstance(v, ast.Name) and v.id == x.arg):
+                body.append(at(ast.Assign(targets=[ast.Name(id=x.arg, ctx=ast.Store())], value=copy.deepcopy(v))))
+
+        class R(ast.NodeTransformer):
+            def visit_FunctionDef(self, n: ast.FunctionDef) -> ast.AST:
+                return n
+
+            visit_AsyncFunctionDef = visit_Lambda = visit_ClassDef = visit_FunctionDef  # type: ignore[assignment]
+
+            def visit_Return(self, n: ast.Return) -> Any:
+                return [collect(n.value, n), ast.copy_location(ast.Continue(), n)]
+
+            def visit_Nonlocal(self, n: ast.Nonlocal) -> Any:
+                return None  # once the body stands in the enclosing function, its variables are that function's own
+
+            visit_Global = visit_Nonlocal  # type: ignore[assignment]
+
+        for st in g.body:
+            if isinstance(st, ast.Expr) and isinstance(st.value, ast.Constant) and isinstance(st.value.value, str):
+                continue  # docstring
+            r = R().visit(copy.deepcopy(st))
+            body += r if isinstance(r, list) else ([r] if r is not None else [])
+    loop: "ast.For | None" = None
+    for gen in reversed(comp.generators):
+        inner: list[ast.stmt] = [loop] if loop is not None else body
+        for c in reversed(gen.ifs):
+            inner.insert(0, at(ast.If(test=ast.UnaryOp(op=ast.Not(), operand=copy.deepcopy(c)), body=[at(ast.Continue())], orelse=[])))
+        loop = at(ast.For(target=copy.deepcopy(gen.target), iter=copy.deepcopy(gen.iter), body=inner, orelse=[]))
+        for n in ast.walk(loop.target):
+            if isinstance(n, ast.Name):
+                n.ctx = ast.Store()
+    assert loop is not None
+    return loop
+
+
+def _comprehensions_as_loops(ix: Any, f: Any, classify: Any) -> Any:
+    """f with every comprehension that goes through items of the document (classify(probe loop) is not None) written as the loop it
+    abbreviates - the function itself when there is none.  `xs = [E for ...]` becomes `xs = []; for ...: xs.append(E)`; a
+    comprehension inside a larger expression is collected, just before the statement it occurs in, into a list of its own."""
+    import copy
+    import dataclasses
+
+    def outermost(fn: ast.AST) -> list[ast.AST]:
+        out, stack = [], [fn]
+        while stack:
+            n = stack.pop()
+            for c in ast.iter_child_nodes(n):
+                if isinstance(c, (ast.FunctionDef, ast.AsyncFunctionDef, ast.Lambda, ast.ClassDef)):
+                    continue
+                if isinstance(c, _COMPS):
+                    out.append(c)
+                else:
+                    stack.append(c)
+        return out
+
+    def probe(c: ast.AST) -> ast.For:
+        elt = c.value if isinstance(c, ast.DictComp) else c.elt
+        return ast.For(target=c.generators[0].target, iter=c.generators[0].iter, body=[ast.Expr(value=elt)], orelse=[])
+
+    if not any(classify(probe(c)) is not None for c in outermost(f.node)):
+        return f
+    node = copy.deepcopy(f.node)
+    g2 = dataclasses.replace(f, node=node)
+    helpers = {h.name: h.node for h in region(ix, f, depth=1) if h is not f}
+    closures = {n.name: n for n in ast.walk(node) if isinstance(n, ast.FunctionDef) and n is not node}
+    inlined: set[str] = set()
+    for c in outermost(node):
+        if classify(probe(c)) is None:
+            continue
+        st = next((s_ for b in _blocks(node) for s_ in b if any(x is c for x in walk_own(s_))), None)
+        blk = next((b for b in _blocks(node) if any(s_ is st for s_ in b)), None)
+        if st is None or blk is None:
+            continue
+        elt = c.value if isinstance(c, ast.DictComp) else c.elt
+        callee = None
+        if isinstance(elt, ast.Call) and not any(isinstance(a_, ast.Starred) for a_ in elt.args) and not any(k.arg is None for k in elt.keywords):
+            last = call_name(elt).rsplit(".", 1)[-1]
+            gdef = closures.get(last) if isinstance(elt.func, ast.Name) else None
+            gdef = gdef or helpers.get(last)
+            if gdef is not None and _inlinable(gdef):
+                a = gdef.args
+                pos = [x.arg for x in [*a.posonlyargs, *a.args]]
+                if pos and pos[0] in ("self", "cls") and not isinstance(elt.func, ast.Name):
+                    pos = pos[1:]
+                env: dict[str, ast.AST] = dict(zip(pos, elt.args))
+                env.update({k.arg: k.value for k in elt.keywords if k.arg})
+                callee = (gdef, env)
+                if last in closures and gdef is closures[last]:
+                    inlined.add(last)
+        whole = isinstance(st, (ast.Assign, ast.AnnAssign)) and st.value is c and isinstance(c, ast.ListComp) and \
+            isinstance(st.targets[0] if isinstance(st, ast.Assign) else st.target, ast.Name)
+        acc = (st.targets[0] if isinstance(st, ast.Assign) else st.target).id if whole else _ACC
+        init = ast.fix_missing_locations(ast.copy_location(ast.Assign(targets=[ast.Name(id=acc, ctx=ast.Store())], value=ast.List(elts=[], ctx=ast.Load())), st))
+        loop = _as_loop(c, acc, callee)
+        i = next(i for i, s_ in enumerate(blk) if s_ is st)
+        blk[i:i + (1 if whole else 0)] = [init, loop]
+    # a local function whose body now stands where it was called is not defined a second time
+    for b in _blocks(node):
+        b[:] = [s_ for s_ in b if not (isinstance(s_, ast.FunctionDef) and s_.name in inlined and not any(
+            isinstance(x, ast.Name) and x.id == s_.name for x in ast.walk(node) if x is not s_))] or [ast.copy_location(ast.Pass(), node)]
+    return g2
+
+
 def document_loops(ix: Any) -> dict[Any, dict[ast.For, str]]:
     """function -> its `for` statements that go through items of the document, each with the kind of item.  A loop is recognised by what
     it iterates: a value whose declared type is a collection of the document model (path items and the operation fields selected from
@@ -867,8 +1298,14 @@ def document_loops(ix: Any) -> dict[Any, dict[ast.For, str]]:
     accumulators: dict[str, dict[int | None, str]] = {}
     for _ in range(3):  # outcomes of outcomes: a short chain, until nothing new is found
         before = (sum(len(v) for v in out.values()), sum(len(v) for v in accumulators.values()))
-        for f in funcs:
+        for i_f, f in enumerate(funcs):
             T = _DocTypes(ix, f)
+            f2 = _comprehensions_as_loops(ix, f, lambda lp, T=T: _classify(lp, T, accumulators))
+            if f2 is not f:
+                # the function is read in its loop form from here on (same qualified name, another tree)
+                out.pop(f, None)
+                funcs[i_f] = f = f2
+                T = _DocTypes(ix, f)
             for lp in [n for n in _own_walk(f.node) if isinstance(n, ast.For)]:
                 if lp in out.get(f, {}):
                     continue
@@ -1191,6 +1628,13 @@ class _Iteration:
     def _simple(self, st: ast.stmt, s: _S) -> _S:
         rec, keep = False, False
         for c in walk_own(st):
+            if isinstance(c, (ast.Yield, ast.YieldFrom)) and c.value is not None:
+                # a generator hands the value to whoever iterates it, exactly as `return` hands it to the caller: an error that is
+                # yielded is passed on as a diagnostic, anything else derived from the item is the item's result
+                if self._is_error_value(c.value, s):
+                    rec = True
+                elif names_in(c.value) & self.dep:
+                    keep = True
             if isinstance(c, ast.Call) and self.helpers:
                 r_, k_ = self._helper_effects(c, s)
                 rec, keep = rec or r_, keep or k_
